@@ -122,7 +122,14 @@ def duplicate(ck):
         elif lossy:
             ck.ob("C16-O2", sitestr(fn, lossy[0]), False, "the texts are compared after %s: %s" % (lossy_wrappers(lossy[0]), describe(lossy[0])), key="DuplicateFilter::filter|inexact-compare")
         else:
-            ck.ob("C16-O2", sitestr(fn), None, "no exact comparison message() == m_lastMessage found")
+            any_text_eq = [n for n in fn.calls() if n.get("op") in ("==", "!=") and len(n.get("args", [])) == 2 and any(is_msg(a) for a in n["args"])
+                           and all((skip_copies(a).get("type") or "").replace("const ", "") == "QString" for a in n["args"])]
+            if any_text_eq:
+                ck.ob("C16-O2", sitestr(fn, any_text_eq[0]), None, "the message text is compared with %s, not with m_lastMessage; idiom not recognised" % describe(any_text_eq[0]))
+            else:
+                conds = [describe(n.get("cond"))[:80] for n in fn.find(lambda n: n.get("k") == "if")]
+                ck.ob("C16-O2", sitestr(fn), False, "the drop decision is not an equality of the message text with the stored previous text (conditions: %s): two different texts that agree on what is compared "
+                      "(length, hash, prefix ...) are collapsed as duplicates" % conds, key="DuplicateFilter::filter|inexact-compare")
         return
     eq = eqs[0]
     exact = (eq.get("sig") or "").replace(" ", "") in ("operator==(constQString&,constQString&)", "operator!=(constQString&,constQString&)", "QString::operator==(constQString&)const", "QString::operator!=(constQString&)const")
